@@ -14,7 +14,7 @@ SPEC = {
          "eval": "fun c => let '(v, g) := c in check_decode v g", "per_shard": 500},
     ],
     "classes": {},
-    "n_quick": 480, "n_thorough": 12000,
+    "n_quick": 480, "n_thorough": 1920,
     "level": "proof",
     "what_violation": ("a document ran that is not registered under the supplied hash, or a refused request "
                        "(hash mismatch / unsupported version / malformed payload) changed the cache or executed something"),
